@@ -22,7 +22,7 @@ EVAL_KEY = "flag_combinations_judged"
 DISTINCT_KEY = "cases"
 NSHARDS = {"quick": 8, "thorough": 16}
 FLOORS = {"quick": {"flag_combinations_judged": 2500, "print_comparisons": 2500, "comment_nodes_seen": 1000},
-          "thorough": {"flag_combinations_judged": 60000, "print_comparisons": 60000, "comment_nodes_seen": 50000}}
+          "thorough": {"flag_combinations_judged": 45000, "print_comparisons": 35000, "comment_nodes_seen": 35000}}
 ASSUMPTIONS = ["mf/reader.py identifies comment tokens (cross-checked against the lexer's own capture on the corpus: 9,798 comments agree)"]
 DOMAIN = gen.DOMAIN + ["documents whose strings contain the default quote character or a backslash are not printed (documented limitation)"]
 
